@@ -37,6 +37,8 @@ type Post implements Node { id: ID! title: String! author: User! tags: [String!]
 type Bot implements Node & Named { id: ID! name: String model: String }
 union Result = User | Post
 interface Owned { owner: Named tags: [String] }
+"the first implementer declares the interface's fields with stricter wrappers around the same named types than the later ones"
+type Gist implements Owned { owner: Named! tags: [String]! }
 type Issue implements Owned { owner: Named tags: [String] n: Int }
 type Repo implements Owned { owner: User! tags: [String!]! stars: Int }
 "lists an interface that itself implements another one BEFORE an unrelated interface"
